@@ -43,20 +43,20 @@ Record config := mkConfig {
   c_max_value : N; c_max_tx : N }.
 
 Record pout := mkPout {
-  o_addr : bytes; o_coin : N; o_assets : list asset_entry;
-  o_size : N;                            (* serialised size of the output *)
-  o_vsize : N }.                         (* serialised size of its value *)
+  po_addr : bytes; po_coin : N; po_assets : list asset_entry;
+  po_size : N;                            (* serialised size of the output *)
+  po_vsize : N }.                         (* serialised size of its value *)
 
 Record ptx := mkPtx {
-  t_inputs : list (bytes * N);
-  t_outputs : list pout;
-  t_fee : N;
-  t_keys : list N;                       (* keys of the body map *)
-  t_body : item;
-  t_nvkeys : N; t_nboot : N;             (* witnesses in the witness set: key 0, key 2 *)
-  t_wit_other : bool;                    (* any other witness-set field *)
-  t_valid : bool;                        (* is_valid = true and auxiliary data = null *)
-  t_size : N }.                          (* length of the byte string *)
+  pt_inputs : list (bytes * N);
+  pt_outputs : list pout;
+  pt_fee : N;
+  pt_keys : list N;                       (* keys of the body map *)
+  pt_body : item;
+  pt_nvkeys : N; pt_nboot : N;             (* witnesses in the witness set: key 0, key 2 *)
+  pt_wit_other : bool;                    (* any other witness-set field *)
+  pt_valid : bool;                        (* is_valid = true and auxiliary data = null *)
+  pt_size : N }.                          (* length of the byte string *)
 
 (* ------------------------------------------------------------------------------ reading a transaction *)
 
@@ -186,45 +186,45 @@ Fixpoint find_utxo (x : bytes * N) (us : list utxo) : option utxo :=
 
 (* P: no input twice (over all transactions), every input is a supplied UTxO, and as many as supplied *)
 Definition partition_ok (us : list utxo) (txs : list ptx) : bool :=
-  let all := flat_map t_inputs txs in
+  let all := flat_map pt_inputs txs in
   nodup_inputs all && forallb (fun x => mem_input x (map utxo_input us)) all && (len all =? len us).
 
 (* total quantity of asset (p, n) in a list of entries *)
 Definition asset_total (p n : bytes) (es : list asset_entry) : N :=
   fold_right (fun e acc => match e with (p', n', q) =>
                 if bytes_eqb p p' && bytes_eqb n n' then q + acc else acc end) 0 es.
-Definition sumN (l : list N) : N := fold_right N.add 0 l.
+Definition jsum (l : list N) : N := fold_right N.add 0 l.
 
 Definition spent (us : list utxo) (t : ptx) : list utxo :=
-  flat_map (fun x => match find_utxo x us with Some u => [u] | None => [] end) (t_inputs t).
+  flat_map (fun x => match find_utxo x us with Some u => [u] | None => [] end) (pt_inputs t).
 
 Definition balance_coin_ok (us : list utxo) (t : ptx) : bool :=
-  sumN (map u_coin (spent us t)) =? sumN (map o_coin (t_outputs t)) + t_fee t.
+  jsum (map u_coin (spent us t)) =? jsum (map po_coin (pt_outputs t)) + pt_fee t.
 Definition balance_assets_ok (us : list utxo) (t : ptx) : bool :=
   let ins := flat_map u_assets (spent us t) in
-  let outs := flat_map o_assets (t_outputs t) in
+  let outs := flat_map po_assets (pt_outputs t) in
   forallb (fun e => match e with (p, n, _) => asset_total p n ins =? asset_total p n outs end) (ins ++ outs).
 
 Definition target_ok (target : bytes) (t : ptx) : bool :=
-  forallb (fun o => bytes_eqb (o_addr o) target) (t_outputs t).
+  forallb (fun o => bytes_eqb (po_addr o) target) (pt_outputs t).
 
 Definition body_shape_ok (t : ptx) : bool :=
-  forallb (fun k => (k =? 0) || (k =? 1) || (k =? 2) || (k =? 3) || (k =? 8)) (t_keys t).
+  forallb (fun k => (k =? 0) || (k =? 1) || (k =? 2) || (k =? 3) || (k =? 8)) (pt_keys t).
 
 (* the signed transaction: same body, exactly one vkey witness per distinct key owner and one bootstrap
    witness per distinct Byron owner, nothing else, valid flag, no auxiliary data *)
 Definition signed_ok (us : list utxo) (t s : ptx) : bool :=
   let addrs := map u_addr (spent us t) in
-  item_eqb (t_body t) (t_body s) &&
-  (t_nvkeys s =? len (key_owners addrs)) && (t_nboot s =? len (byron_owners addrs)) &&
-  negb (t_wit_other s) && t_valid s.
+  item_eqb (pt_body t) (pt_body s) &&
+  (pt_nvkeys s =? len (key_owners addrs)) && (pt_nboot s =? len (byron_owners addrs)) &&
+  negb (pt_wit_other s) && pt_valid s.
 
-Definition fee_ok (c : config) (t s : ptx) : bool := c_a c * t_size s + c_b c <=? t_fee t.
-Definition size_ok (c : config) (t s : ptx) : bool := (t_size t <=? c_max_tx c) && (t_size s <=? c_max_tx c).
+Definition fee_ok (c : config) (t s : ptx) : bool := c_a c * pt_size s + c_b c <=? pt_fee t.
+Definition size_ok (c : config) (t s : ptx) : bool := (pt_size t <=? c_max_tx c) && (pt_size s <=? c_max_tx c).
 Definition value_size_ok (c : config) (t : ptx) : bool :=
-  forallb (fun o => o_vsize o <=? c_max_value c) (t_outputs t).
+  forallb (fun o => po_vsize o <=? c_max_value c) (pt_outputs t).
 Definition min_ada_ok (c : config) (t : ptx) : bool :=
-  forallb (fun o => c_cpb c * (160 + o_size o) <=? o_coin o) (t_outputs t).
+  forallb (fun o => c_cpb c * (160 + po_size o) <=? po_coin o) (pt_outputs t).
 
 (* violation codes (first component), transaction number (second; 0 for P) *)
 Definition V_PARSE := 1.   Definition V_PARTITION := 2.  Definition V_TARGET := 3.
@@ -239,7 +239,7 @@ Definition judge_tx (c : config) (target : bytes) (us : list utxo) (i : N) (t s 
   flag (balance_coin_ok us t) V_COIN i ++
   flag (balance_assets_ok us t) V_ASSETS i ++
   flag (body_shape_ok t) V_SHAPE i ++
-  flag (t_valid t) V_VALID i ++
+  flag (pt_valid t) V_VALID i ++
   flag (signed_ok us t s) V_SIGNED i ++
   flag (fee_ok c t s) V_FEE i ++
   flag (size_ok c t s) V_SIZE i ++
@@ -280,4 +280,4 @@ Definition judge (c : config) (target : bytes) (us : list utxo) (l : list (bytes
 
 (* summary figures for the evidence / replay files *)
 Definition tx_summary (t : ptx) : list N :=
-  [len (t_inputs t); len (t_outputs t); t_fee t; t_size t; t_nvkeys t; t_nboot t].
+  [len (pt_inputs t); len (pt_outputs t); pt_fee t; pt_size t; pt_nvkeys t; pt_nboot t].
